@@ -238,6 +238,7 @@ def _wrap_stage(name, orig):
             rec['exc'] = e
             raise
         finally:
+            rec['seq_out'] = w.seq
             depth.pop()
     stage._simverif_seam = True
     return stage
@@ -449,6 +450,7 @@ def begin_run(w):
     sys.stdout = w.stdout
     logging.raiseExceptions = False
     _reset_logger()
+    simmp.reset_globals_to_pristine()
     _orig['np.seed'](12345)
     _orig['py.seed'](12345)
     import multiprocessing
